@@ -11,33 +11,76 @@ Open Scope N_scope.
 Definition reach (C : crypto) (ccd : bool) (capacity : N) (ops : list op) : state C :=
   run_gen C ccd (init C capacity) ops.
 
+(* histories around a change of the configured bcrypt cost: first anything without re-hashing logins (hashes of
+   any cost), then anything in which every node hashes with cost c -- passwords set, and the cost that
+   re-hashing logins (LoginRehash ... c, then their RehashSave attempts, scheduled freely) ask for *)
+Definition reach2 (C : crypto) (ccd : bool) (capacity : N) (ops0 : list op) (c : N) (ops1 : list op) : state C :=
+  run_gen C ccd (run_gen C ccd (init C capacity) ops0) ops1.
+
 (* ---- passwords ---- *)
 
-(* AuthenticateUser succeeds only for an existing, enabled user and a password the stored hash verifies;
-   among plain passwords (at most 72 bytes, no NUL byte: where bcrypt is injective) that is the user's
-   current password (the one last set) *)
-Theorem C12_password_auth_sound : forall C, crypto_ok C -> forall ccd capacity ops u q ev w,
+(* AuthenticateUser (with or without the re-hash) succeeds only for an existing, enabled user and a password the
+   stored hash verifies, i.e. one bcrypt cannot tell from the password last written for the user; among plain
+   passwords (at most 72 bytes, no NUL byte) that is the user's current password itself *)
+Theorem C12_password_auth_sound : forall C, crypto_ok C -> forall ccd capacity ops o u q w,
   let st := reach C ccd capacity ops in
-  authed (snd (step_gen C ccd st (AuthPassword u q ev))) = Some w ->
+  password_login o u q -> authed (snd (step_gen C ccd st o)) = Some w ->
   w = u /\ exists usr, alookup u (users st) = Some usr /\ u_disabled usr = false /\
     match u_hash usr with Some h => verify C h q = true | None => q = 0 end /\
+    bkey C q = bkey C (u_pw usr) /\
     (plain C q = true -> plain C (u_pw usr) = true -> q = u_pw usr).
-Proof. intros C OK ccd capacity ops u q ev w st. apply password_auth_sound; [exact OK | apply Inv_reach]. Qed.
+Proof.
+  intros C OK ccd capacity ops o u q w st PL H.
+  destruct (password_auth_sound C OK ccd st o u q w (Inv_reach C ccd capacity ops) PL H) as [E [usr [Eu [Ed [Hv Hk]]]]].
+  split; [exact E|]. exists usr. repeat split; auto.
+  intros Pq Pp. apply (bkey_plain C OK); auto.
+Qed.
 Print Assumptions C12_password_auth_sound.
 
 (* wrong and empty passwords: once p has been set for u, and until somebody sets u's password again, every
    other string is refused (p and the attempt plain; in particular "" = 0 when p is not empty), whatever else
-   happens in between (disable/enable, delete, sessions, cache evictions, other users) *)
-Theorem C12_wrong_password_rejected : forall C, crypto_ok C -> forall ccd capacity ops0 u p salt o,
-  let st := reach C ccd capacity ops0 in
-  o = CreateUser u p salt \/ o = SetPassword u p salt ->
+   happens in between: disable/enable, delete, sessions, cache evictions, other users, and re-hashing logins
+   whose Save attempts are interleaved with all of that *)
+Theorem C12_wrong_password_rejected : forall C, crypto_ok C -> forall ccd capacity ops0 c ops1 u p salt o,
+  Forall no_login_rehash ops0 -> Forall (uniform c) ops1 ->
+  let st := reach2 C ccd capacity ops0 c ops1 in
+  o = CreateUser u p salt c \/ o = SetPassword u p salt c ->
   snd (step_gen C ccd st o) = ODone ->
-  forall ops, Forall (fun o' => ~ sets_password u o') ops ->
+  forall ops, Forall (fun o' => uniform c o' /\ ~ sets_password u o') ops ->
   plain C p = true ->
-  forall q ev, q <> p -> plain C q = true ->
-    authed (snd (step_gen C ccd (run_gen C ccd (fst (step_gen C ccd st o)) ops) (AuthPassword u q ev))) = None.
-Proof. intros C OK ccd capacity ops0 u p salt o st. apply set_then_wrong_password_rejected; [exact OK | apply Inv_reach]. Qed.
+  forall o' q, password_login o' u q -> q <> p -> plain C q = true ->
+    authed (snd (step_gen C ccd (run_gen C ccd (fst (step_gen C ccd st o)) ops) o')) = None.
+Proof.
+  intros C OK ccd capacity ops0 c ops1 u p salt o F0 F1 st. apply set_then_wrong_password_rejected.
+  - exact OK.
+  - apply Inv_run, Inv_reach.
+  - apply Good_reach; assumption.
+Qed.
 Print Assumptions C12_wrong_password_rejected.
+
+(* re-hashing at login (rehashPassword): a Save attempt of an in-flight re-hash -- whatever was scheduled between
+   the login's read and this attempt: password changes, disabling, deletion and re-creation, other logins --
+   never makes the stored credential accept a string it refused before, never touches the disabled flag and
+   never creates or deletes a user; and unless the password presented was the empty string it leaves the set of
+   accepted strings exactly as it was.  In particular a superseded password is never written back.
+   (Hypothesis: one configured cost c; with two different costs in use at once it fails, see C12_Refuted.) *)
+Theorem C12_rehash_preserves_credentials : forall C, crypto_ok C -> forall ccd capacity ops0 c ops1 a salt,
+  Forall no_login_rehash ops0 -> Forall (uniform c) ops1 ->
+  let st := reach2 C ccd capacity ops0 c ops1 in
+  let st' := fst (step_gen C ccd st (RehashSave a salt)) in
+  forall u,
+    (forall x, creds C st' u x = true -> creds C st u x = true) /\
+    option_map u_disabled (alookup u (users st')) = option_map u_disabled (alookup u (users st)) /\
+    ((forall pd, alookup a (pending st) = Some pd -> p_pw pd <> 0) -> forall x, creds C st' u x = creds C st u x).
+Proof.
+  intros C OK ccd capacity ops0 c ops1 a salt F0 F1 st st' u.
+  assert (I : Inv C st) by apply Inv_run, Inv_reach.
+  assert (G : Good C c st) by (apply Good_reach; assumption).
+  destruct (rehash_never_widens C OK ccd c st a salt I G u) as [W D].
+  split; [exact W|]. split; [exact D|].
+  intros NE x. apply (rehash_preserves C OK ccd c st a salt I G NE).
+Qed.
+Print Assumptions C12_rehash_preserves_credentials.
 
 (* the fast path never accepts a password the full check would reject: in every reachable state every
    cached pair (sha1 q, h) satisfies the full bcrypt check of q against h ... *)
@@ -79,12 +122,12 @@ Print Assumptions C12_session_auth_sound.
 (* the model of the tree as it is: disabled users authenticate neither with the password nor with a session *)
 Theorem C12_disabled_user_never_authenticates : forall C, crypto_ok C -> forall capacity ops o w,
   let st := run C (init C capacity) ops in
-  (exists u q ev, o = AuthPassword u q ev) \/ (exists sid, authenticates o sid) ->
+  (exists u q, password_login o u q) \/ (exists sid, authenticates o sid) ->
   authed (snd (step C st o)) = Some w ->
   exists usr, alookup w (users st) = Some usr /\ u_disabled usr = false.
 Proof.
-  intros C OK capacity ops o w st [[u [q [ev ->]]]|[sid A]] H.
-  - destruct (password_auth_sound C OK _ _ _ _ _ _ (Inv_reach C _ capacity ops) H) as [-> [usr [Eu [Ed _]]]]. eauto.
+  intros C OK capacity ops o w st [[u [q PL]]|[sid A]] H.
+  - destruct (password_auth_sound C OK _ _ _ _ _ _ (Inv_reach C _ capacity ops) PL H) as [-> [usr [Eu [Ed _]]]]. eauto.
   - assert (P : presents o sid) by (destruct A as [->| ->]; unfold presents; auto).
     destruct (session_auth_sound C _ _ _ _ _ P H) as [s [usr [_ [_ [_ [Eu [_ Hd]]]]]]].
     exists usr. split; [exact Eu | exact (Hd eq_refl A)].
@@ -106,7 +149,7 @@ Print Assumptions C12_dead_session_stays_dead.
 Theorem C12_password_change_kills_sessions : forall C ccd capacity ops0 sid s o,
   let st := reach C ccd capacity ops0 in
   alookup sid (sessions st) = Some s ->
-  (exists p salt, o = SetPassword (s_user s) p salt) \/ o = InvalidateSessions (s_user s) ->
+  (exists p salt c, o = SetPassword (s_user s) p salt c) \/ o = InvalidateSessions (s_user s) ->
   snd (step_gen C ccd st o) = ODone ->
   forall ops o', no_recreate sid ops -> presents o' sid ->
     authed (snd (step_gen C ccd (run_gen C ccd (fst (step_gen C ccd st o)) ops) o')) = None.
@@ -190,9 +233,14 @@ Print Assumptions C12_one_time_at_most_once_concurrent.
 Example C12_nonvacuous :
   crypto_ok XC /\
   outs XC (init XC 10)
-       [CreateUser 1 1 1; CreateSession 1 1 1000 false; CreateSession 1 2 1000 true;
+       [CreateUser 1 1 1 4; CreateSession 1 1 1000 false; CreateSession 1 2 1000 true;
         AuthPassword 1 1 None; AuthPassword 1 5 None; AuthCookie 1; AuthCookie 2; AuthCookie 2;
-        SetPassword 1 5 2; AuthCookie 1; AuthPassword 1 5 None]
+        LoginRehash 7 1 1 None 5; SetPassword 1 5 2 5; RehashSave 7 3; RehashSave 7 4;
+        AuthCookie 1; AuthPassword 1 1 None; AuthPassword 1 5 None;
+        CreateUser 2 1 5 4; LoginRehash 8 2 1 None 5; RehashSave 8 6; AuthPassword 2 1 None]
   = [ODone; ODone; ODone; OPass (Some 1) 1; OPass None 1; OCookie (Some 1) false; OCookie (Some 1) false;
-     OCookie None false; ODone; OCookie None false; OPass (Some 1) 2].
+     OCookie None false;
+     OPass (Some 1) 1; ODone; ORehash false; ORehash false;
+     OCookie None false; OPass None 1; OPass (Some 1) 2;
+     ODone; OPass (Some 2) 3; ORehash true; OPass (Some 2) 4].
 Proof. split; [exact XC_ok | vm_compute; reflexivity]. Qed.
